@@ -13,3 +13,12 @@ Definition run_certs (certs : list (bytes * list bytes)) (mods : list bytes) : l
 (* L cases: what print_json / print report from the lsb-release, /proc/self/status and /proc/cpuinfo streams *)
 Definition run_linux (lsbdata status cpuinfo : bytes) : (list bytes * bytes) * (Z * option Z) :=
   let l := lsb_from lsbdata in ((lsb_json l, lsb_text_line l), (pid_from status, microcode_from cpuinfo)).
+
+(* Q cases: the general registers of the CFI caller frame of an arm64 thread whose module has the STACK CFI rules
+   [written] (INIT line first, then the delta lines; constants or failing expressions), the HashMap iterated in reverse:
+   (value if valid) for each name of [observe] *)
+From RM Require Import C13.Cfi.
+Definition run_cfi_rules (written : list (bytes * option Z)) (callee : list (bytes * Z)) (observe : list bytes) : list (option Z) :=
+  let cal := fun x => match find (fun e : bytes * Z => bytes_eqb x (fst e)) callee with Some e => snd e | None => 0 end in
+  let regs := a64_walk (@rev _) written cal in
+  map (fun n => match a64_memoize n with Some r => regs r | None => None end) observe.
